@@ -140,7 +140,7 @@ class StubModelRows(Cacheable):
         self.objects = objects
 
 
-def h06c_rows(has0, has1, has2, has3, hdr0, hdr1, hdr2, hdr3, zr0, zr1, zr2, zr3, split, wide, tile_flag):
+def h06c_rows(has0, has1, has2, has3, hdr0, hdr1, hdr2, hdr3, zr0, zr1, zr2, zr3, split, wide, tile_flag, rev=False):
     """every stored row is reported at the index its own record declares, whether or not empty rows have header records,
     however the rows are spread over tiles, and whichever offset encoding each row record declares"""
     R = 4
@@ -166,7 +166,7 @@ def h06c_rows(has0, has1, has2, has3, hdr0, hdr1, hdr2, hdr3, zr0, zr1, zr2, zr3
                 headers.append(Rec(index=r, numberOfCells=0))       # explicit header record for an empty row
     objects = {7: None, 30: Rec(headers=headers)}
     tile_refs = []
-    for tid in sorted(tiles):
+    for tid in sorted(tiles, reverse=rev):        # the tile list may name the tiles in any order: each carries its tileid
         # the tile-level hint is independent of what each row record declares
         objects[40 + tid] = Rec(rowInfos=tiles[tid], last_saved_in_BNC=True, should_use_wide_rows=tile_flag)
         tile_refs.append(Rec(tileid=tid, tile=Rec(identifier=40 + tid)))
@@ -205,8 +205,9 @@ HARNESSES = [
             bounds="4 columns, any subset present, record lengths 4/8/12 bytes", stubs=["array('h') model: 16-bit signed little-endian split"]),
     Harness("H06c", h06c_rows,
             dict(has0=BoolDom(), has1=BoolDom(), has2=BoolDom(), has3=BoolDom(), hdr0=BoolDom(), hdr1=BoolDom(), hdr2=BoolDom(),
-                 hdr3=BoolDom(), zr0=BoolDom(), zr1=BoolDom(), zr2=BoolDom(), zr3=BoolDom(), split=BoolDom(), wide=BoolDom(), tile_flag=BoolDom()),
-            bounds="4 rows x 2 stored cells, any subset stored, header records and / or explicit zero-cell row records for any subset of the empty rows, one tile or tiles of 2 rows, narrow or wide offsets per row record, tile-level wide hint set or not",
+                 hdr3=BoolDom(), zr0=BoolDom(), zr1=BoolDom(), zr2=BoolDom(), zr3=BoolDom(), split=BoolDom(), wide=BoolDom(), tile_flag=BoolDom(),
+                 rev=Cases([False, True])),
+            bounds="4 rows x 2 stored cells, any subset stored, header records and / or explicit zero-cell row records for any subset of the empty rows, one tile or tiles of 2 rows listed in ascending or descending tile order, narrow or wide offsets per row record, tile-level wide hint set or not",
             stubs=["object store = dict of attribute bags"]),
 ]
 PROPERTY = "C06"
